@@ -431,6 +431,29 @@ C13_A(cfg, opts, ph, s0, s1, b) ==
      \* placement at its start by at most one hop per component (judged with alloc_task events)
      <<"C13.A.once", TRUE>> >>
 
+\* the same on the per-step logs (entry k = state when step k-1 was recorded)
+C13_L(cfg, opts, lg) ==
+  LET n == Len(lg.pcost)
+      top(p, k) == { c \in ToSet(lg.pc[p][k]) : \A q \in ParentsOf(cfg, c): ~Mem(lg.pc[p][k], q) }
+  IN << <<"C13.L.single-place", \A c \in Comps(cfg): \A k \in 1..Len(lg.cp[c]):
+             SumOver(Wps(cfg), LAMBDA p: Count(lg.pc[p][k], c)) <= 1>>,
+        <<"C13.L.twoway", \A c \in Comps(cfg): \A p \in Wps(cfg): \A k \in 1..Len(lg.cp[c]):
+             Mem(lg.pc[p][k], c) <=> lg.cp[c][k] = p>>,
+        <<"C13.L.capacity", \A p \in Wps(cfg): \A k \in 1..Len(lg.pc[p]):
+             SumOver(top(p, k), LAMBDA c: cfg.comps[c].space) <= cfg.wps[p].cap>>,
+        <<"C13.L.conveyor", \A c \in Comps(cfg): \A k \in 1..(Len(lg.cp[c]) - 1):
+             LET a == lg.cp[c][k]  b == lg.cp[c][k + 1]
+             IN b # a /\ b # 0 /\ a # 0 /\ Len(cfg.wps[b].inputs) > 0 => Mem(cfg.wps[b].inputs, a)>>,
+        <<"C13.L.not-while-working", \A c \in Comps(cfg): \A k \in 1..(Len(lg.cp[c]) - 1):
+             lg.cp[c][k + 1] # lg.cp[c][k] =>
+                \A t \in TasksOf(cfg, c): ~(lg.ts[t][k] = "WORKING" /\ lg.ts[t][k + 1] = "WORKING")>>,
+        <<"C13.L.leaves", \A c \in Comps(cfg): IsTop(cfg, c) /\ TasksOf(cfg, c) # {} =>
+             \A k \in 1..Len(lg.cp[c]):
+                (\A t \in TasksOf(cfg, c): lg.ts[t][k] = "FINISHED") => lg.cp[c][k] = 0>>,
+        <<"C13.L.site", \A t \in Tasks(cfg): cfg.tasks[t].needF =>
+             \A k \in 1..Len(lg.af[t]): lg.af[t][k] # <<-1>> =>
+                \A i \in DOMAIN lg.af[t][k]: cfg.facs[lg.af[t][k][i]].wp = lg.cp[cfg.tasks[t].comp][k]>> >>
+
 \* =========================== C14 ===========================================
 C14_S(cfg, opts, ph, s) ==
   IF ph \notin {"init", "finished", "unplaced", "ready", "updated", "returned", "presence",
